@@ -17,3 +17,6 @@ pub assume_specification[i64::unsigned_abs](a: i64) -> (r: u64)
     ensures r as int == (if a >= 0 { a as int } else { -(a as int) });
 pub assume_specification<T>[bool::then_some](b: bool, t: T) -> (r: Option<T>)
     ensures r == (if b { Some(t) } else { None::<T> });
+pub assume_specification<T, U, F: FnOnce(T) -> U>[::std::option::Option::<T>::map_or](o: Option<T>, d: U, f: F) -> (r: U)
+    requires o is Some ==> call_requires(f, (o->0,)),
+    ensures match o { Some(t) => call_ensures(f, (t,), r), None => r == d };
